@@ -24,11 +24,18 @@ func rangeElem(s *Sym) (*Sym, bool) {
 	if s.Op != "index" {
 		return nil, false
 	}
-	i := s.Args[1]
-	if i.Op == "bin" && i.Name == "+" && i.Args[0].Op == "phi" {
-		if k, ok := symConstInt(i.Args[1]); ok && k == 1 {
-			return s.Args[0], true
+	i := s.Args[1].StripConv()
+	if i.Op == "bin" && i.Name == "+" {
+		// range form: index = phi + 1 with phi counting from -1
+		for k := 0; k < 2; k++ {
+			if c, ok := symConstInt(i.Args[k]); ok && c == 1 && i.Args[1-k].StripConv().Op == "phi" {
+				return s.Args[0], true
+			}
 		}
+	}
+	if isCountingPhi(i, 0) {
+		// three-clause form: for i := 0; i < len(x); i++
+		return s.Args[0], true
 	}
 	return nil, false
 }
